@@ -1,6 +1,9 @@
 package vc
 
 import (
+	"fmt"
+	"go/types"
+
 	"golang.org/x/tools/go/ssa"
 )
 
@@ -39,14 +42,105 @@ func (fr *frame) havocCells() {
 	}
 }
 
+type rangeInfo struct {
+	key  string // ghost state key: set of visited keys
+	m    Val
+	mt   *types.Map
+}
+
+// rangeInit: iteration over a map is modelled with a ghost set of visited keys
+// (each key of the domain exactly once, order unspecified).
 func (fr *frame) rangeInit(x *ssa.Range) Val {
-	panic(unsupportedf("range over map/string"))
+	u := fr.u
+	mt, ok := x.X.Type().Underlying().(*types.Map)
+	if !ok {
+		panic(unsupportedf("range over string"))
+	}
+	key := u.regKey(fmt.Sprintf("iter.f%d.%s", fr.id, x.Name()), "(Array "+u.sortOf(mt.Key())+" Bool)")
+	fr.st.set(key, "((as const (Array "+u.sortOf(mt.Key())+" Bool)) false)")
+	if fr.ranges == nil {
+		fr.ranges = map[*ssa.Range]*rangeInfo{}
+	}
+	fr.ranges[x] = &rangeInfo{key: key, m: fr.val(x.X), mt: mt}
+	return Val{t: "0", typ: x.Type()}
 }
 
 func (fr *frame) rangeNext(x *ssa.Next) Val {
-	panic(unsupportedf("range over map/string"))
+	u := fr.u
+	r, ok := x.Iter.(*ssa.Range)
+	if !ok || fr.ranges[r] == nil {
+		panic(unsupportedf("next on an unknown iterator"))
+	}
+	ri := fr.ranges[r]
+	m := fr.term(ri.m)
+	okc := u.declConst(fr.tag("next_ok"), "Bool")
+	k := fr.freshOfType("next_key", ri.mt.Key())
+	dom := fmt.Sprintf("(select %s %s)", fr.st.get(u, u.keyMapDom(ri.mt)), m)
+	vis := fr.st.get(u, ri.key)
+	val := fmt.Sprintf("(select (select %s %s) %s)", fr.st.get(u, u.keyMapVal(ri.mt)), m, k.t)
+	fr.assume(fmt.Sprintf("(=> %s (and (select %s %s) (not (select %s %s))))", okc, dom, k.t, vis, k.t))
+	ks := u.sortOf(ri.mt.Key())
+	fr.assume(fmt.Sprintf("(=> (not %s) (forall ((x!k %s)) (! (=> (select %s x!k) (select %s x!k)) :pattern ((select %s x!k)))))", okc, ks, dom, vis, dom))
+	fr.st.set(ri.key, fmt.Sprintf("(ite %s (store %s %s true) %s)", okc, vis, k.t, vis))
+	tup := x.Type().(*types.Tuple)
+	v := Val{t: val, typ: ri.mt.Elem()}
+	if ti := u.typeInvariant(val, ri.mt.Elem(), 1); ti != "" {
+		fr.assume("(=> " + okc + " " + ti + ")")
+	}
+	return Val{typ: x.Type(), tup: []Val{{t: okc, typ: tup.At(0).Type()}, k, v}}
 }
 
+// runDeferStack executes the deferred calls in LIFO order, each guarded by the path
+// condition under which its defer statement was executed.
 func (fr *frame) runDeferStack(x *ssa.RunDefers) {
-	panic(unsupportedf("defer"))
+	u := fr.u
+	for i := len(fr.defers) - 1; i >= 0; i-- {
+		d := fr.defers[i]
+		if d.inLoop {
+			fr.havocAll("deferred call registered inside a loop")
+			continue
+		}
+		before := fr.st.clone()
+		beforeCur := fr.cur
+		fr.cur = u.define(fr.tag("defercond"), "Bool", "(and "+fr.cur+" "+d.cond+")")
+		c := &d.call.Call
+		func() {
+			if b, ok := c.Value.(*ssa.Builtin); ok {
+				switch b.Name() {
+				case "close", "recover", "print", "println":
+					return
+				}
+				fr.havocAll("deferred builtin " + b.Name())
+				return
+			}
+			if c.IsInvoke() {
+				fr.invokeCallVals(deferVal{d.call}, c, d.fnv, d.args)
+				return
+			}
+			if d.fnv.fn != nil {
+				fr.callFunction(deferVal{d.call}, d.fnv.fn, d.args, d.fnv.binds, d.call)
+				return
+			}
+			fr.havocAll("deferred call through an unknown function value")
+		}()
+		// merge: the call happened only if its defer was executed
+		after := fr.st
+		ws := after.ws
+		fr.st = mergeStates(u, fr.tag("deferjoin"), []mergeIn{{d.cond, after}, {"true", before}})
+		fr.st.ws = ws
+		// path condition: if the defer ran, whatever the callee assumed; otherwise unchanged
+		fr.cur = u.define(fr.tag("pcd"), "Bool", "(and "+beforeCur+" (=> "+d.cond+" "+fr.cur+"))")
+	}
 }
+
+// deferVal lets a deferred call flow through the call machinery (which wants an ssa.Value
+// for the result type and an instruction for the position).
+type deferVal struct {
+	*ssa.Defer
+}
+
+func (d deferVal) Name() string { return "defer" }
+func (d deferVal) Type() types.Type {
+	return d.Defer.Call.Signature().Results()
+}
+func (d deferVal) Referrers() *[]ssa.Instruction { return nil }
